@@ -741,9 +741,10 @@ structure IEdit where
   comment : Option Str
 deriving Repr, Inhabited
 
-/-- `apply_edits` for a batch of indexed edits: descending by index (stable), overlap filter -/
+/-- `apply_edits` for a batch of indexed edits: reversed, then descending by index (stable: edits at one
+offset are applied last-first), overlap filter -/
 def applyEditsIndexed (s : Sess) (edits : List IEdit) : Sess × Nat × Nat :=
-  let sorted := (edits.mergeSort fun a b => a.index ≥ b.index)
+  let sorted := (edits.reverse.mergeSort fun a b => a.index ≥ b.index)
   let step (acc : Sess × Nat × Nat × List (Nat × Nat)) (e : IEdit) : Sess × Nat × Nat × List (Nat × Nat) :=
     let (s, ap, sk, occ) := acc
     let a := e.index
